@@ -48,10 +48,34 @@ import (
 // intact at every receipt, exactly 1 + own Nacks times (dest-uuid/-payload/-metadata, fanout-invented,
 // fanout-missing).
 //
+// The relay must also COMPLETE: the statement holds "for all destination-publisher failure sequences" and "all
+// configurations", so a finite plan "k refused calls, then accepted" ends with the accepted call whatever the relay's
+// handlers look at. Relays whose handlers honour the consumed message's context are part of the family: the Requeuer
+// with Delay > 0 (it waits "Delay or the message's context"), a Forwarder with a middleware that refuses to work for
+// a message whose context has ended (forwarder.Config.Middlewares), and - all three relays hand the consumed
+// message's context on to the relayed message - a destination publisher that refuses a message whose context has
+// ended, as every publisher that passes msg.Context() to its client does. A source-side delivery counter (a
+// pass-through subscriber decorator between the source and the relay; the Router puts one there itself) counts the
+// copies the relay consumed per message:
+//
+//   - at quiescence every consumed copy of a message has produced a destination call (consumed-not-relayed: the relay
+//     settled a consumed copy without handing it to the destination, while nobody was stopping it);
+//   - a message that was consumed gsRunaway times more often than the destination was called for it, or that a
+//     context-honouring destination had to refuse gsRunaway times because it came with an ended context, is in an
+//     endless Nack/redelivery loop although its destination plan is finite (runaway-redelivery). The harness then ends
+//     the loop (the decorator acknowledges the copy itself / the destination accepts), so that the case becomes
+//     quiescent and is judged instead of running into the watchdog.
+//
+// A destination call that was refused only because of the ended context does not use up the message's plan.
+//
 // Identity travels in metadata key c17-id (UUIDs may be empty or repeated); for the Forwarder it is the metadata
 // of the enveloped message. No verdict depends on time: the case is judged when the process is quiescent.
 
 const gsClass = "gosource/"
+
+// gsRunaway: so many consumed copies of one message without a destination call for them (or so many destination
+// calls that arrived with an ended context) are a loop, not a retry. No correct run has a single one.
+const gsRunaway = 20
 
 var gsKinds = []string{"requeuer", "fanin", "forwarder"}
 
@@ -73,18 +97,30 @@ type gsMsg struct {
 	early     bool       // published before the relay subscribed (persistent source)
 
 	// observed; guarded by gsCase.mu
-	calls    []*gsCall
-	returned bool // the source's Publish call that carried it has returned
+	calls      []*gsCall
+	returned   bool             // the source's Publish call that carried it has returned
+	consumed   int              // copies the relay took from the source subscription (before the harness began to stop it)
+	deadCtx    int              // ... of them handed over with an already ended context
+	ctxRefused int              // destination calls refused because the message's context had ended
+	swallowed  int              // copies the runaway guard acknowledged itself instead of handing them to the relay
+	runaway    string           // set by the runaway guard: what ran away
+	lastCopy   *message.Message // non-envelope: the copy the relay consumed last
+	nacked     int              // non-envelope: consumed copies found Nacked when the next copy arrived
 }
 
 type gsCall struct {
 	c           *vlib.PubCall
 	planned     failKind
-	afterReturn bool // sampled inside the call: the source's Publish for this message had already returned
+	afterReturn bool  // sampled inside the call: the source's Publish for this message had already returned
+	ctxErr      error // refused by the context-honouring destination: the message's context had ended (not part of the plan)
 }
 
 // gsSubscriber tells when the relay's Subscribe calls have returned (a Requeuer on its own router has no Running()).
+//
+// It is also the source-side delivery counter: a pass-through decorator (same message values, nothing settled,
+// closed when the source closes the subscription) that counts the copies the relay consumed and ends a runaway loop.
 type gsSubscriber struct {
+	g     *gsCase
 	inner message.Subscriber
 	mu    sync.Mutex
 	done  map[string]int
@@ -92,12 +128,77 @@ type gsSubscriber struct {
 
 func (s *gsSubscriber) Subscribe(ctx context.Context, topic string) (<-chan *message.Message, error) {
 	ch, err := s.inner.Subscribe(ctx, topic)
-	if err == nil {
-		s.mu.Lock()
-		s.done[topic]++
-		s.mu.Unlock()
+	if err != nil {
+		return ch, err
 	}
-	return ch, err
+	out := make(chan *message.Message)
+	go s.g.pump(ch, out)
+	s.mu.Lock()
+	s.done[topic]++
+	s.mu.Unlock()
+	return out, nil
+}
+
+// pump hands every message of one source subscription to the relay, unchanged.
+func (g *gsCase) pump(in <-chan *message.Message, out chan<- *message.Message) {
+	defer close(out)
+	fwd := g.kind == "forwarder"
+	for m := range in {
+		id := ""
+		if fwd {
+			id = gsIdentify(vlib.MsgSnap{Payload: m.Payload, Metadata: m.Metadata}, true)
+		} else {
+			id = m.Metadata[idKey]
+		}
+		dead := m.Context().Err() != nil
+		g.mu.Lock()
+		rm := g.byID[id]
+		counted := rm != nil && rm.valid && !g.stopping
+		swallow := false
+		if counted && rm.consumed-len(rm.calls) >= gsRunaway {
+			// an endless loop: the relay settles copy after copy of this message without calling the destination
+			if rm.runaway == "" {
+				rm.runaway = fmt.Sprintf("the relay consumed %d copies of it from the source but made only %d destination calls for it", rm.consumed, len(rm.calls))
+			}
+			rm.swallowed++
+			swallow = true
+		}
+		bad := rm != nil && !rm.valid && !g.stopping
+		if bad {
+			// a non-envelope (generated with AckWhenCannotUnwrap=true only) that comes again was Nacked; a GoChannel would
+			// bring it for ever
+			if rm.lastCopy != nil && vlib.Settled(rm.lastCopy) == "nack" {
+				rm.nacked++
+			}
+			if rm.nacked >= 3 {
+				rm.swallowed++
+				swallow = true
+			}
+		}
+		g.mu.Unlock()
+		if swallow {
+			m.Ack() // ends the loop: the source stops redelivering, the case can become quiescent
+			continue
+		}
+		select {
+		case out <- m:
+		case <-g.over:
+			return // the case is over and the relay has stopped reading
+		}
+		if bad {
+			g.mu.Lock()
+			rm.lastCopy = m
+			g.mu.Unlock()
+		}
+		if counted {
+			g.mu.Lock()
+			rm.consumed++
+			if dead {
+				rm.deadCtx++
+			}
+			g.mu.Unlock()
+		}
+	}
 }
 
 func (s *gsSubscriber) Close() error { return s.inner.Close() }
@@ -222,6 +323,9 @@ type gsCase struct {
 	config   map[string]any
 	edge     bool
 	ackCU    bool
+	ctxDst   bool // the destination honours the relayed message's context: it refuses a message whose context has ended
+	ctxMw    bool // Forwarder: one middleware honours the consumed message's context
+	mwRefuse atomic.Int64
 	workers  []*gsWorker
 	odd      *odd
 	counters map[string]int
@@ -230,7 +334,9 @@ type gsCase struct {
 	byID     map[string]*gsMsg
 	strays   []*vlib.PubCall
 	decision map[int]failKind
+	ctxErrs  map[int]error // destination call number -> the context error it is refused with
 	stopping bool
+	over     chan struct{} // closed when the case returns
 }
 
 func (g *gsCase) onPublish(c *vlib.PubCall) {
@@ -246,7 +352,29 @@ func (g *gsCase) onPublish(c *vlib.PubCall) {
 		return
 	}
 	cr := &gsCall{c: c, afterReturn: m.returned && !g.stopping}
-	if n := len(m.calls); n < len(m.plan) {
+	if g.ctxDst && !g.stopping {
+		// a publisher that honours the context of the message it is given (all three relays hand on the consumed one's)
+		if err := c.Msgs[0].Context().Err(); err != nil {
+			m.ctxRefused++
+			if m.ctxRefused <= gsRunaway {
+				cr.ctxErr = err
+				m.calls = append(m.calls, cr)
+				g.ctxErrs[c.No] = err
+				return
+			}
+			// an endless loop: every redelivered copy comes with an ended context. End it: go on with the plan.
+			if m.runaway == "" {
+				m.runaway = fmt.Sprintf("%d destination calls for it came with an already ended message context (%v) and were refused for that by the context-honouring destination", gsRunaway, err)
+			}
+		}
+	}
+	n := 0
+	for _, p := range m.calls {
+		if p.ctxErr == nil {
+			n++
+		}
+	}
+	if n < len(m.plan) {
 		cr.planned = m.plan[n]
 	}
 	m.calls = append(m.calls, cr)
@@ -256,7 +384,11 @@ func (g *gsCase) onPublish(c *vlib.PubCall) {
 func (g *gsCase) script(no int, topic string, msgs []*message.Message) error {
 	g.mu.Lock()
 	k := g.decision[no]
+	ctxErr := g.ctxErrs[no]
 	g.mu.Unlock()
+	if ctxErr != nil {
+		return fmt.Errorf("c17: the message's context has ended: %w", ctxErr)
+	}
 	switch k {
 	case fkErr:
 		return errInjected
@@ -314,7 +446,8 @@ func (g *gsCase) buildRequeuer(res *vlib.Result) bool {
 	subTopic := genTopics(e, "poison", 1, true)[0]
 	destTopics := genTopics(e, "back", r.Range(1, 3), true)
 	topicMode := []string{"const", "metadata", "uuid"}[r.Intn(3)]
-	delay := []time.Duration{0, 0, 0, time.Microsecond, 300 * time.Microsecond, time.Millisecond}[r.Intn(6)]
+	delay := []time.Duration{0, 0, 0, time.Microsecond, 20 * time.Microsecond, 300 * time.Microsecond, time.Millisecond, 2 * time.Millisecond}[r.Intn(8)]
+	g.counters["gosource_requeuer_cases_with_delay"] = b2i(delay > 0)
 	ownRouter := r.Bool()
 	topicOf := func(m *message.Message) (string, error) {
 		switch topicMode {
@@ -507,6 +640,23 @@ func (g *gsCase) buildForwarder(res *vlib.Result) bool {
 			}
 		})
 	}
+	if g.ctxMw = r.Chance(0.35); g.ctxMw {
+		// a middleware that honours the consumed message's context, as the Requeuer's own handler does: no work for a
+		// message whose context has ended (the Subscriber contract: that happens when it was settled or the
+		// subscription closes - never to a copy that is being handled)
+		at := r.Intn(len(mws) + 1)
+		mw := func(h message.HandlerFunc) message.HandlerFunc {
+			return func(m *message.Message) ([]*message.Message, error) {
+				if err := m.Context().Err(); err != nil {
+					g.mwRefuse.Add(1)
+					return nil, err
+				}
+				return h(m)
+			}
+		}
+		mws = append(mws[:at:at], append([]message.HandlerMiddleware{mw}, mws[at:]...)...)
+	}
+	g.counters["gosource_forwarder_cases_ctx_honouring_middleware"] = b2i(g.ctxMw)
 	closeTimeout := []time.Duration{0, 5 * time.Second, time.Minute}[r.Intn(3)]
 	cfg := forwarder.Config{ForwarderTopic: fwdTopic, AckWhenCannotUnwrap: g.ackCU, Middlewares: mws, CloseTimeout: closeTimeout}
 	ownRouter := r.Chance(0.3)
@@ -537,8 +687,8 @@ func (g *gsCase) buildForwarder(res *vlib.Result) bool {
 		}
 		return fp.Publish(batch[0].wantTopic, ms...)
 	}
-	g.cfgSig = vlib.Sig("fwd", g.ackCU, fwdTopic == "", nMw, ownRouter, closeTimeout, len(destTopics))
-	g.config = map[string]any{"ForwarderTopic": fwdTopic, "AckWhenCannotUnwrap": g.ackCU, "middlewares": nMw, "external_router": ownRouter, "CloseTimeout": closeTimeout.String(), "dest_topics": destTopics}
+	g.cfgSig = vlib.Sig("fwd", g.ackCU, fwdTopic == "", nMw, g.ctxMw, ownRouter, closeTimeout, len(destTopics))
+	g.config = map[string]any{"ForwarderTopic": fwdTopic, "AckWhenCannotUnwrap": g.ackCU, "middlewares": nMw, "context_honouring_middleware": g.ctxMw, "external_router": ownRouter, "CloseTimeout": closeTimeout.String(), "dest_topics": destTopics}
 	return true
 }
 
@@ -568,7 +718,8 @@ func runGoSource(e *vlib.Env) vlib.Result {
 	ctl := vlib.NewCtl(r.Uint64(), 0.15, 30)
 	defer ctl.Uninstall()
 
-	g := &gsCase{e: e, r: r, kind: kind, byID: map[string]*gsMsg{}, decision: map[int]failKind{}, odd: &odd{}, counters: map[string]int{}}
+	g := &gsCase{e: e, r: r, kind: kind, byID: map[string]*gsMsg{}, decision: map[int]failKind{}, ctxErrs: map[int]error{}, odd: &odd{}, counters: map[string]int{}, over: make(chan struct{})}
+	defer close(g.over)
 	behindFanOut := r.Chance(0.4)
 	g.cfg = gochannel.Config{
 		OutputChannelBuffer:            []int64{0, 0, 0, 1, 4, 64}[r.Intn(6)],
@@ -586,7 +737,8 @@ func runGoSource(e *vlib.Env) vlib.Result {
 		g.fo, g.foFirst = fo, r.Bool()
 		source = fo
 	}
-	g.sub = &gsSubscriber{inner: source, done: map[string]int{}}
+	g.sub = &gsSubscriber{g: g, inner: source, done: map[string]int{}}
+	g.ctxDst = r.Chance(0.3)
 	g.dst = &vlib.Pub{Name: e.ID() + ".dst", OnPublish: g.onPublish, Script: g.script}
 	ok := false
 	switch kind {
@@ -809,6 +961,8 @@ func runGoSource(e *vlib.Env) vlib.Result {
 	res.Count("gosource_cases_block_publish_until_ack", b2i(g.cfg.BlockPublishUntilSubscriberAck))
 	res.Count("gosource_published_before_subscribe", nEarly)
 	res.Count("gosource_publisher_goroutines", nPublishers)
+	res.Count("gosource_cases_ctx_honouring_destination", b2i(g.ctxDst))
+	res.Count("gosource_forwarder_middleware_refusals_for_ended_context", int(g.mwRefuse.Load()))
 	for k, v := range g.counters {
 		res.Count(k, v)
 	}
@@ -826,14 +980,14 @@ func runGoSource(e *vlib.Env) vlib.Result {
 	for _, w := range g.workers {
 		wshape += fmt.Sprintf("%d/%v/%d;", len(w.nacks), w.scribble, len(w.got))
 	}
-	res.Sig = vlib.Sig("gosource", g.cfgSig, g.fo != nil, g.foFirst, g.cfg.OutputChannelBuffer, g.cfg.Persistent, g.cfg.BlockPublishUntilSubscriberAck, nPublishers, shape, wshape)
+	res.Sig = vlib.Sig("gosource", g.cfgSig, g.fo != nil, g.foFirst, g.cfg.OutputChannelBuffer, g.cfg.Persistent, g.cfg.BlockPublishUntilSubscriberAck, nPublishers, g.ctxDst, shape, wshape)
 	res.Hooks = ctl.Counts()
 	src := "gochannel"
 	if g.fo != nil {
 		src = "fanout(gochannel)"
 	}
 	res.Sample = map[string]any{"component": g.comp.name, "source": src, "source_config": map[string]any{"OutputChannelBuffer": g.cfg.OutputChannelBuffer, "Persistent": g.cfg.Persistent, "BlockPublishUntilSubscriberAck": g.cfg.BlockPublishUntilSubscriberAck},
-		"fanout_running_before_relay_subscribes": g.foFirst, "fanout_workers": len(g.workers), "config": g.config, "messages": g.trace(8)}
+		"destination_honours_message_context": g.ctxDst, "fanout_running_before_relay_subscribes": g.foFirst, "fanout_workers": len(g.workers), "config": g.config, "messages": g.trace(8)}
 	if res.Failed() {
 		w := map[string]any{"messages": g.trace(100)}
 		if res.Witness != nil {
@@ -871,6 +1025,9 @@ func (g *gsCase) trace(max int) []map[string]any {
 			if cr.c.Panic != nil {
 				o = "panic"
 			}
+			if cr.ctxErr != nil {
+				o = "refused:ended-context"
+			}
 			s := fmt.Sprintf("pub#%d(%q)=%s", cr.c.No, cr.c.Topic, o)
 			if len(cr.c.Snaps) > 0 {
 				if v, ok := cr.c.Snaps[0].Metadata[requeuer.RetriesKey]; ok {
@@ -880,7 +1037,8 @@ func (g *gsCase) trace(max int) []map[string]any {
 			calls = append(calls, s)
 		}
 		out = append(out, map[string]any{"no": rm.no, "kind": rm.kind, "uuid": rm.pub.UUID, "src_topic": rm.srcTopic, "want_topic": rm.wantTopic, "published_metadata": rm.pub.Metadata,
-			"published_payload": clip(rm.pub.Payload), "plan": plan, "published_before_subscribe": rm.early, "destination_calls": calls})
+			"published_payload": clip(rm.pub.Payload), "plan": plan, "published_before_subscribe": rm.early, "destination_calls": calls,
+			"copies_consumed_by_relay": rm.consumed, "copies_with_ended_context": rm.deadCtx, "copies_acked_by_runaway_guard": rm.swallowed})
 	}
 	return out
 }
@@ -907,6 +1065,7 @@ func (g *gsCase) judge(res *vlib.Result, publishersBack bool, dump string) {
 		res.Fail("invented", "%s behind %s: destination Publish #%d on topic %q carries message uuid=%q (%s=%q) that was never published to the source", name, src, c.No, c.Topic, uuid, idKey, id)
 	}
 	relayed, failed, redeliveries, sampled, malformed := 0, 0, 0, 0, 0
+	consumed, deadCtx, ctxRefused, swallowed := 0, 0, 0, 0
 	judgeBlock := g.fo == nil && g.cfg.BlockPublishUntilSubscriberAck
 	for _, rm := range g.msgs {
 		res.Events += 1 + len(rm.calls)
@@ -917,8 +1076,13 @@ func (g *gsCase) judge(res *vlib.Result, publishersBack bool, dump string) {
 		where += ")"
 		if !rm.valid {
 			malformed++
+			swallowed += rm.swallowed
+			if rm.nacked > 0 && g.ackCU {
+				res.Fail("cannot-unwrap-settle", "%s: AckWhenCannotUnwrap=true but the non-envelope (payload %q) was Nacked: it came again from the source %d times while nobody was stopping the relay (copies acknowledged by the harness to end the loop: %d)", where, clip(rm.pub.Payload), rm.nacked, rm.swallowed)
+			}
 			continue // a call for it is a stray (it cannot carry the id), reported above
 		}
+		nCtx := 0
 		for i, cr := range rm.calls {
 			c := cr.c
 			at := fmt.Sprintf("%s destination call %d of %d (Publish #%d, plan: %d refused then accepted)", where, i+1, len(rm.calls), c.No, len(rm.plan))
@@ -950,7 +1114,9 @@ func (g *gsCase) judge(res *vlib.Result, publishersBack bool, dump string) {
 				}
 				res.Fail(clause, "%s: destination metadata differs at %v: got %s want %s (published to the source: %s)", at, d, describeMeta(got.Metadata, d), describeMeta(rm.want.Metadata, d), describeMeta(rm.pub.Metadata, d))
 			}
-			if c.Err != nil || c.Panic != nil {
+			if cr.ctxErr != nil {
+				nCtx++
+			} else if c.Err != nil || c.Panic != nil {
 				failed++
 			} else {
 				relayed++
@@ -959,14 +1125,30 @@ func (g *gsCase) judge(res *vlib.Result, publishersBack bool, dump string) {
 				redeliveries++
 			}
 		}
-		switch n, want := len(rm.calls), len(rm.plan)+1; {
-		case n == 0:
+		consumed += rm.consumed
+		deadCtx += rm.deadCtx
+		ctxRefused += nCtx
+		swallowed += rm.swallowed
+		if rm.runaway != "" {
+			res.Fail("runaway-redelivery", "%s is in an endless Nack/redelivery loop although its destination plan is finite (%d refused calls, then accepted): %s; %d of the consumed copies came with an already ended context; the harness ended the loop (copies acknowledged by the guard: %d)", where, len(rm.plan), rm.runaway, rm.deadCtx, rm.swallowed)
+			continue
+		}
+		if rm.consumed > len(rm.calls) {
+			res.Fail("consumed-not-relayed", "%s: the relay consumed %d copies of it from the source but made only %d destination calls for it (process quiescent, nobody was stopping the relay): a consumed copy was settled without being handed to the destination (%d copies came with an already ended context)", where, rm.consumed, len(rm.calls), rm.deadCtx)
+		}
+		// calls refused only because the message came with an ended context are outside the plan
+		lastRefusal := "the message's context had ended"
+		if k := len(rm.calls); k > 0 && rm.calls[k-1].ctxErr == nil {
+			lastRefusal = fkNames[rm.calls[k-1].planned]
+		}
+		switch n, want := len(rm.calls)-nCtx, len(rm.plan)+1; {
+		case len(rm.calls) == 0:
 			res.Fail("not-relayed", "%s never reached the destination (process quiescent, source Publish returned: %v)", where, rm.returned)
 			if res.Witness == nil {
 				res.Witness = dump
 			}
 		case n < want:
-			res.Fail("no-redelivery-after-failure", "%s: destination call %d was refused (%s) and the message never came again (process quiescent; source Publish returned: %v): a GoChannel subscription gets a Nacked message again, so the consumed copy was not Nacked", where, n, fkNames[rm.calls[n-1].planned], rm.returned)
+			res.Fail("no-redelivery-after-failure", "%s: destination call %d was refused (%s) and the message never came again (process quiescent; source Publish returned: %v): a GoChannel subscription gets a Nacked message again, so the consumed copy was not Nacked", where, len(rm.calls), lastRefusal, rm.returned)
 			if res.Witness == nil {
 				res.Witness = dump
 			}
@@ -1029,6 +1211,10 @@ func (g *gsCase) judge(res *vlib.Result, publishersBack bool, dump string) {
 	res.Count("gosource_redeliveries_after_refused_call", redeliveries)
 	res.Count("gosource_calls_sampled_against_blocking_publish", sampled)
 	res.Count("malformed_deliveries", malformed)
+	res.Count("gosource_copies_consumed_by_relay", consumed)
+	res.Count("gosource_copies_consumed_with_ended_context", deadCtx)
+	res.Count("gosource_dest_calls_refused_for_ended_context", ctxRefused)
+	res.Count("gosource_copies_acked_by_runaway_guard", swallowed)
 	if g.fo != nil {
 		res.Count("fanout_subscriptions", len(g.workers))
 		res.Count("fanout_deliveries", receipts)
